@@ -78,6 +78,14 @@ func Load(patterns []string, options ...func(c *packages.Config)) (*Universe, er
 
 		u.pkgs[p.PkgPath] = pkg
 
+		// dependencies are registered now: resolve the import table
+		// (newPkg runs before them and would only see nil packages)
+		if pi, ok := pkg.(*pkgInfo); ok {
+			for pkgPath := range p.Imports {
+				pi.imports[pkgPath] = u.Package(pkgPath)
+			}
+		}
+
 		for rootPkgPath := range rootPkgPaths {
 			// when is sub pkg of root pkg
 			if p.Module != nil && rootPkgPath == p.Module.Path {
